@@ -241,6 +241,23 @@ fn build(env: &Env, x: &Sx) -> Observable<'static, V> {
         build(&env, &inner)
       })
     }
+    // defer whose FACTORY is stateful: the k-th call of the factory builds just(k) - "a fresh Observable for each observer"
+    "defer_built" => {
+      let c = l[1].int() as usize;
+      let ctr = env
+        .with(|e| {
+          while e.counters.len() <= c {
+            e.counters.push(Arc::new(AtomicUsize::new(0)));
+          }
+          e.counters[c].clone()
+        })
+        .unwrap();
+      let t = CTok::new();
+      observables::defer(move || {
+        t.touch();
+        observables::just(V::int(ctr.fetch_add(1, Ordering::SeqCst) as i64))
+      })
+    }
     "start" => {
       let c = l[1].int() as usize;
       let ctr = env
@@ -277,6 +294,34 @@ fn build(env: &Env, x: &Sx) -> Observable<'static, V> {
 impl std::fmt::Debug for V {
   fn fmt(&self, f: &mut std::fmt::Formatter<'_>) -> std::fmt::Result {
     write!(f, "{}", self.to_sx().to_string())
+  }
+}
+
+/// A user-defined scheduler (IScheduler is a public trait). post runs the task at once on the calling thread - exactly like
+/// default_scheduler - and keeps the task it ran last until the scheduler instance itself is dropped; abort only raises a flag.
+/// Whatever the library captured in that task (an emitted item, the source of subscribe_on) lives as long as the LIBRARY keeps
+/// the scheduler instance of a subscription.
+#[derive(Clone)]
+struct KeepSched {
+  last: Arc<Mutex<Option<Box<dyn Fn() + Send + Sync + 'static>>>>,
+  aborted: Arc<std::sync::atomic::AtomicBool>,
+}
+impl KeepSched {
+  fn new() -> KeepSched {
+    KeepSched { last: Arc::new(Mutex::new(None)), aborted: Arc::new(std::sync::atomic::AtomicBool::new(false)) }
+  }
+}
+impl another_rxrust::schedulers::scheduler::IScheduler<'static> for KeepSched {
+  fn post<F>(&self, f: F)
+  where
+    F: Fn() + Clone + Send + Sync + 'static,
+  {
+    f();
+    let old = self.last.lock().unwrap().replace(Box::new(f));
+    drop(old);
+  }
+  fn abort(&self) {
+    self.aborted.store(true, Ordering::SeqCst);
   }
 }
 
@@ -384,6 +429,9 @@ fn apply_op(
         other => Material::Next(other),
       })
       .dematerialize(),
+    // observe_on / subscribe_on with the synchronous job-keeping scheduler: the identity on the event stream (model: map id)
+    "observe_on_keep" => src.observe_on(|| KeepSched::new()),
+    "subscribe_on_keep" => src.subscribe_on(|| KeepSched::new()),
     "tap" => {
       let id = ps[0].int() as usize;
       let (r1, r2, r3) = (env.rec.clone(), env.rec.clone(), env.rec.clone());
